@@ -1333,7 +1333,7 @@ class Interp:
                 from .symseq import RepSeq
 
                 for v in (1, 0):  # a count the path condition pins to 0 or 1: an ordinary sequence
-                    if self.ctx.entails(sym.tz(k) == v):
+                    if self.ctx.quick_entails(sym.tz(k) == v):
                         return seq * v
                 return RepSeq.make(self, seq, k)
         if op is operator.mod and isinstance(a, str):
